@@ -310,6 +310,19 @@ def gen_pool(ns, rnd, size):
         lambda: {'fn': 'survey.radiations', 'args': [rnd.uniform(0, 1e6), rnd.uniform(0, 1e7), rnd.uniform(0, 360), rnd.uniform(0, 1e4)]},
         lambda: {'fn': 'survey.joins', 'args': [rnd.uniform(0, 1e6), rnd.uniform(0, 1e7), rnd.uniform(0, 1e6), rnd.uniform(0, 1e7)]},
         lambda: {'fn': 'survey.mets_partial_differentials', 'args': []},
+        # element-wise use with the readings of several set-ups held in arrays (1-D and 0-d): caller-owned arrays
+        lambda: {'fn': rnd.choice(['survey.phase_refractivity', 'survey.group_refractivity']),
+                 'args': [rnd.choice([0.85, 0.6328, {'$nd': [0.85, 0.6328, 0.9]}]), rnd.choice([rnd.uniform(-10, 40), {'$nd': [12.5, 20.0, 31.0]}]),
+                          {'$nd': [1003.2, 1013.25, 947.6]}, {'$nd': [10.1, 12.0, 7.7]}, rnd.choice([420, 400.0, {'$nd': [420.0, 410.0, 500.0]}])]},
+        lambda: {'fn': rnd.choice(['survey.phase_refractivity', 'survey.group_refractivity']),
+                 'args': [0.85, rnd.uniform(-10, 40), {'$nd': rnd.uniform(900, 1050)}, {'$nd': rnd.uniform(0, 30)}]},
+        lambda: {'fn': 'survey.first_vel_corrn', 'args': [{'$nd': [1000.0, 2500.5]}, [281.781, 79.393], rnd.uniform(-10, 40),
+                                                          {'$nd': [1003.2, 947.6]}, rnd.uniform(0, 100)],
+                 'kwargs': {'CO2_ppm': rnd.uniform(350, 500), 'wavelength': 0.85}},
+        lambda: {'fn': 'survey.radiations', 'args': [{'$nd': [1000.0, 2000.0]}, {'$nd': [5000.0, 6000.0]}, rnd.uniform(0, 360), {'$nd': [10.0, 250.5]}]},
+        lambda: {'fn': 'convert.polar2rect', 'args': [{'$nd': [1.0, 2.5, 1000.0]}, rnd.uniform(0, 360)]},
+        lambda: {'fn': 'angles.dec2hp_v', 'args': [{'$nd': [rnd.uniform(-360, 360) for _ in range(4)]}]},
+        lambda: {'fn': 'angles.hp2dec_v', 'args': [{'$nd': [12.3045, -0.0001, 359.5959, 45.0]}]},
         lambda: {'fn': 'ntv2reader.interpolate_ntv2', 'args': [{'$grid': 1}] + list(grid_points(rnd)) + [rnd.choice(['bilinear', 'bicubic'])]},
         lambda: {'fn': 'ntv2reader.interpolate_ntv2', 'args': [{'$grid': 1}] + list(grid_points(rnd)) + [rnd.choice(['bilinear', 'bicubic'])]},
         lambda: {'fn': 'transform.ntv2_2d', 'args': [{'$grid': 1}] + list(grid_points(rnd)) + [rnd.random() < 0.5, rnd.choice(['bilinear', 'bicubic'])]},
